@@ -493,3 +493,30 @@ def run_c19(pid='C19', tier='quick', seed=0):
             bad.append('%s: expected exactly one try/finally without handlers' % name)
     obls.append(ob('api/try-finally-dispose-no-except', not bad, 'API functions release their loader/dumper in finally and catch nothing', bad))
     return {'obligations': obls}
+
+
+# ------------------------------------------------------------------------------------------------ C18: demand-driven API generators
+def run_c18(pid='C18', tier='quick', seed=0):
+    """load_all / compose_all / parse / scan hand out one item per loop iteration, straight from the loader, inside try/finally: dispose()"""
+    repo = _repo()
+    m = repo.modules['yaml']
+    obls = []
+    want = {'scan': ('check_token', 'get_token'), 'parse': ('check_event', 'get_event'), 'compose_all': ('check_node', 'get_node'), 'load_all': ('check_data', 'get_data')}
+    for name, (chk, get) in want.items():
+        f = m.funcs[name]
+        ok, why = False, ''
+        body = [s_ for s_ in f.node.body if not (isinstance(s_, ast.Expr) and isinstance(s_.value, ast.Constant))]
+        try:
+            assign, tr = body
+            assert isinstance(assign, ast.Assign) and ast.unparse(assign.value) == 'Loader(stream)'
+            assert isinstance(tr, ast.Try) and not tr.handlers and ast.unparse(tr.finalbody[0]) == 'loader.dispose()' and len(tr.finalbody) == 1
+            (loop,) = tr.body
+            assert isinstance(loop, ast.While) and ast.unparse(loop.test) == 'loader.%s()' % chk
+            (y,) = loop.body
+            assert isinstance(y, ast.Expr) and isinstance(y.value, ast.Yield) and ast.unparse(y.value.value) == 'loader.%s()' % get
+            ok = True
+        except Exception as e:
+            why = 'unexpected shape: %s' % (ast.unparse(f.node)[:200])
+        obls.append(ob('api/%s-yields-one-item-per-iteration-on-demand' % name, ok,
+                       'yaml.%s is `loader = Loader(stream); try: while loader.%s(): yield loader.%s() finally: loader.dispose()` (no pre-fetch, released when abandoned)' % (name, chk, get), why))
+    return {'obligations': obls}
